@@ -36,7 +36,7 @@ import (
 
 const rule = "exchange that is a batch with >= 2 members containing at least one failing member (backend error / HTTP error / connection close / unknown or malformed from / failed nonce lookup) or at least one signing request, " +
 	"or whose held backend calls are released in an order different from request order, or that runs against a process whose chain id was discovered with net_version; or a session (a history of exchanges against a process started for it) in which the same from is named in two or more exchanges " +
-	"or an exchange follows a body whose answer is not judged; distinct by hash of the whole case (requests + backend script)"
+	"or an exchange follows a body whose answer is not judged, or the wallet directory of the (listening) process gains a file between two exchanges; distinct by hash of the whole case (requests + backend script + wallet changes)"
 
 // ---------------------------------------------------------------------------
 // Case
@@ -166,16 +166,49 @@ const (
 // are the same in every process the pool starts.
 var decoys = proc.Decoys(proc.Keys(3))
 
-func decoyOf(addr [20]byte) *proc.Decoy {
-	for i := range decoys {
-		if decoys[i].Address == addr {
-			return &decoys[i]
+// walletView is what the wallet of a process contains at one moment, as the harness knows
+// it from the files it wrote itself: the accounts that can sign, and the entries that are
+// listed (a file is named for the address) but must never sign.
+type walletView struct {
+	keys   []proc.WalletKey
+	decoys []proc.Decoy
+}
+
+// baseView is the wallet every process starts with.
+func baseView(keys []proc.WalletKey) walletView { return walletView{keys: keys, decoys: decoys} }
+
+func (w walletView) decoyOf(addr [20]byte) *proc.Decoy {
+	for i := range w.decoys {
+		if w.decoys[i].Address == addr {
+			return &w.decoys[i]
 		}
 	}
 	return nil
 }
 
-func classifyFrom(raw json.RawMessage, keys []proc.WalletKey) (fromClass, [20]byte) {
+func (w walletView) keyOf(addr [20]byte) *proc.WalletKey {
+	for i := range w.keys {
+		if w.keys[i].Address == addr {
+			return &w.keys[i]
+		}
+	}
+	return nil
+}
+
+// listed is the address set eth_accounts has to report (sorted, 40 lower-case hex digits each).
+func (w walletView) listed() []string {
+	out := make([]string, 0, len(w.keys)+len(w.decoys))
+	for _, k := range w.keys {
+		out = append(out, k.AddrHex)
+	}
+	for _, d := range w.decoys { // a file is named for them: they are part of the wallet's address set
+		out = append(out, d.AddrHex)
+	}
+	sort.Strings(out)
+	return out
+}
+
+func classifyFrom(raw json.RawMessage, w walletView) (fromClass, [20]byte) {
 	var addr [20]byte
 	if len(raw) == 0 {
 		return fromAbsent, addr
@@ -190,12 +223,10 @@ func classifyFrom(raw json.RawMessage, keys []proc.WalletKey) (fromClass, [20]by
 		return fromMalformed, addr
 	}
 	copy(addr[:], b)
-	for _, k := range keys {
-		if k.Address == addr {
-			return fromKnown, addr
-		}
+	if w.keyOf(addr) != nil {
+		return fromKnown, addr
 	}
-	if decoyOf(addr) != nil {
+	if w.decoyOf(addr) != nil {
 		return fromUnusable, addr
 	}
 	return fromUnknown, addr
@@ -379,7 +410,7 @@ func (c ExchangeCase) nonceReply(addr [20]byte) proc.Reply {
 	return proc.ResultReply(`"0x0"`)
 }
 
-func (c ExchangeCase) plans(keys []proc.WalletKey) ([]plan, error) {
+func (c ExchangeCase) plans(w walletView) ([]plan, error) {
 	out := make([]plan, len(c.Members))
 	for i, m := range c.Members {
 		switch m.Kind {
@@ -393,7 +424,7 @@ func (c ExchangeCase) plans(keys []proc.WalletKey) ([]plan, error) {
 			if !m.Tx.ToIsToken && !m.Tx.DataToken {
 				return nil, fmt.Errorf("member %d: transaction carries no correlation token", i)
 			}
-			cl, addr := classifyFrom(m.Tx.From, keys)
+			cl, addr := classifyFrom(m.Tx.From, w)
 			out[i].class, out[i].from = cl, addr
 			if cl != fromKnown {
 				continue
@@ -590,21 +621,43 @@ func judgeExchange(c ExchangeCase) (vs []evid.Violation) {
 			fmt.Fprintf(os.Stderr, "INFRASTRUCTURE: %v\n", err)
 			os.Exit(2)
 		}
+		if iv := infraStart(err); iv != nil {
+			return []evid.Violation{*iv}
+		}
 		return []evid.Violation{evid.V("process-starts", "the ffsigner process for chain config %+v does not come up: %v", c.Chain, err)}
 	}
-	vs, _ = runExchange(in, chain, c)
+	vs, _ = runExchange(in, baseView(in.Keys), chain, c)
 	return vs
 }
 
-// runExchange performs one exchange against a running instance and judges it.  usable is
-// false when the instance cannot be used any more (it crashed or hangs; it was dropped).
-func runExchange(in *proc.Instance, chain *big.Int, c ExchangeCase) (vs []evid.Violation, usable bool) {
-	if len(in.Decoys) != len(decoys) {
-		return []evid.Violation{evid.V("harness", "the instance has %d decoy entries, the oracle knows %d", len(in.Decoys), len(decoys))}, true
+// runExchange performs one exchange against a running instance and judges it against the
+// wallet content w.  usable is false when the instance cannot be used any more (it crashed
+// or hangs; it was dropped).
+func runExchange(in *proc.Instance, w walletView, chain *big.Int, c ExchangeCase) (vs []evid.Violation, usable bool) {
+	plans, run, vs, usable := performExchange(in, w, c)
+	if run == nil {
+		return vs, usable
 	}
-	plans, err := c.plans(in.Keys)
+	vs = append(vs, judgeCalls(c, plans, run.calls, chain, w)...)
+	vs = append(vs, judgeResponse(c, plans, w, run.body)...)
+	return vs, true
+}
+
+// exchangeRun is what one exchange produced: the calls the backend saw and the response body.
+type exchangeRun struct {
+	calls []proc.Call
+	body  []byte
+}
+
+// performExchange installs the backend script of c, posts the request and collects what
+// happened.  run is nil when there is nothing to judge (vs then says why).
+func performExchange(in *proc.Instance, w walletView, c ExchangeCase) (plans []plan, run *exchangeRun, vs []evid.Violation, usable bool) {
+	if len(in.Decoys) != len(decoys) {
+		return nil, nil, []evid.Violation{evid.V("harness", "the instance has %d decoy entries, the oracle knows %d", len(in.Decoys), len(decoys))}, true
+	}
+	plans, err := c.plans(w)
 	if err != nil {
-		return []evid.Violation{evid.V("harness", "%v", err)}, true
+		return nil, nil, []evid.Violation{evid.V("harness", "%v", err)}, true
 	}
 
 	// backend script
@@ -641,17 +694,14 @@ func runExchange(in *proc.Instance, chain *big.Int, c ExchangeCase) (vs []evid.V
 		vs = append(vs, evid.V("process-survives", "the ffsigner process died during the exchange (request %s): %s", short(body), in.Signer.ExitInfo(2500)))
 		pool.NoteCrash()
 		pool.Drop(in)
-		return vs, false
+		return plans, nil, vs, false
 	}
 	if perr != nil {
 		// no usable answer although the process lives: start from a fresh process next time
 		pool.Drop(in)
-		return append(vs, evid.V("response", "no complete HTTP response within 60 s: %v", perr)), false
+		return plans, nil, append(vs, evid.V("response", "no complete HTTP response within 60 s: %v", perr)), false
 	}
-
-	vs = append(vs, judgeCalls(c, plans, calls, chain)...)
-	vs = append(vs, judgeResponse(c, plans, in.Keys, res.Body)...)
-	return vs, true
+	return plans, &exchangeRun{calls: calls, body: res.Body}, vs, true
 }
 
 func sameChain(a, b Chain) bool {
@@ -659,6 +709,311 @@ func sameChain(a, b Chain) bool {
 		return false
 	}
 	return a.Configured == nil || *a.Configured == *b.Configured
+}
+
+// ---------------------------------------------------------------------------
+// wallets that change while the process runs (sessions with the file-system listener)
+
+// WalletAdd is one file (pair) the harness puts into the wallet directory of the running
+// process.  Everything is derived from Kind and N, so that the case is plain data.
+type WalletAdd struct {
+	// "key": key file + password file of a new signing account (proc.ExtraKey(N));
+	// "decoy:<kind>": an entry that is listed but must never sign (proc.ExtraDecoy(kind, N));
+	// "ignored": a file no naming rule of the wallet matches (never listed)
+	Kind string `json:"kind"`
+	N    int    `json:"n"`
+	// InPlace: created under its final name and written there (default: written under a
+	// temporary name and renamed).  KeyFirst: the key file is placed before its password file.
+	// Either way both files are complete before the harness sends the next request.
+	InPlace  bool `json:"in_place,omitempty"`
+	KeyFirst bool `json:"key_first,omitempty"`
+}
+
+func (a WalletAdd) how() string {
+	if a.InPlace {
+		return proc.PlaceInPlace
+	}
+	return proc.PlaceRename
+}
+
+func (a WalletAdd) String() string {
+	base := proc.Keys(3)
+	switch {
+	case a.Kind == "key":
+		return "the key file and password file of 0x" + proc.ExtraKey(a.N).AddrHex
+	case strings.HasPrefix(a.Kind, "decoy:"):
+		if d, err := proc.ExtraDecoy(strings.TrimPrefix(a.Kind, "decoy:"), a.N, base); err == nil {
+			return fmt.Sprintf("a file named for 0x%s that cannot sign for it (%s)", d.AddrHex, d.Kind)
+		}
+	case a.Kind == "ignored":
+		name, _ := ignoredFile(a.N)
+		return "a file the wallet's naming rule does not match (" + name + ")"
+	}
+	return fmt.Sprintf("%s #%d", a.Kind, a.N)
+}
+
+// ignoredFile names a file that is no wallet entry under the configured naming rule
+// (<40 hex digits>.key.json): never listed, never a signing account.
+func ignoredFile(n int) (name string, content []byte) {
+	k := proc.ExtraKey(100000 + n)
+	switch n % 4 {
+	case 0:
+		return k.AddrHex + ".key.json.bak", []byte("{}\n")
+	case 1:
+		return k.AddrHex + ".pwd", []byte(k.Password + "\n") // a password file without a key file
+	case 2:
+		return fmt.Sprintf("notes-%d.txt", n), []byte("not a key\n")
+	default:
+		return k.AddrHex[:39] + ".key.json", []byte("{}\n") // not an address
+	}
+}
+
+// with returns the wallet content after a was added (w itself is not modified).
+func (w walletView) with(a WalletAdd) (walletView, error) {
+	out := walletView{keys: append([]proc.WalletKey{}, w.keys...), decoys: append([]proc.Decoy{}, w.decoys...)}
+	switch {
+	case a.Kind == "key":
+		k := proc.ExtraKey(a.N)
+		if out.keyOf(k.Address) == nil {
+			out.keys = append(out.keys, k)
+		}
+	case strings.HasPrefix(a.Kind, "decoy:"):
+		d, err := proc.ExtraDecoy(strings.TrimPrefix(a.Kind, "decoy:"), a.N, proc.Keys(3))
+		if err != nil {
+			return w, err
+		}
+		if out.decoyOf(d.Address) == nil {
+			out.decoys = append(out.decoys, d)
+		}
+	case a.Kind == "ignored":
+	default:
+		return w, fmt.Errorf("unknown wallet change %q", a.Kind)
+	}
+	return out, nil
+}
+
+// viewAt is the wallet content the exchange of step si is judged against: the start-up
+// content plus everything the steps 0..si added.
+func (sc SessionCase) viewAt(keys []proc.WalletKey, si int) (walletView, error) {
+	w := baseView(keys)
+	for i := 0; i <= si && i < len(sc.Steps); i++ {
+		for _, a := range sc.Steps[i].Wallet {
+			var err error
+			if w, err = w.with(a); err != nil {
+				return w, err
+			}
+		}
+	}
+	return w, nil
+}
+
+func applyWalletAdd(dir string, a WalletAdd) error {
+	switch {
+	case a.Kind == "key":
+		return proc.AddKey(dir, proc.ExtraKey(a.N), a.N, a.how(), !a.KeyFirst, ".key.json", ".pwd")
+	case strings.HasPrefix(a.Kind, "decoy:"):
+		base := proc.Keys(3)
+		d, err := proc.ExtraDecoy(strings.TrimPrefix(a.Kind, "decoy:"), a.N, base)
+		if err != nil {
+			return err
+		}
+		return proc.AddDecoy(dir, base, d, a.how(), !a.KeyFirst, ".key.json", ".pwd")
+	case a.Kind == "ignored":
+		name, content := ignoredFile(a.N)
+		return proc.PlaceFile(dir, name, content, a.how())
+	}
+	return fmt.Errorf("unknown wallet change %q", a.Kind)
+}
+
+// Bounds of the wait after a change of the wallet directory.  The listener is asynchronous:
+// that it has not delivered YET is no violation until settleBound is over.  Once the process
+// has demonstrably taken a new key in (it signed with it), the address is one of the
+// wallet's addresses beyond doubt, and eth_accounts asked after that has settleGrace left
+// to say so; likewise, once eth_accounts lists every new address, the new signing accounts
+// (whose files were complete before anything was asked) have settleGrace left to sign.
+const (
+	settleBound = 30 * time.Second
+	settleGrace = 5 * time.Second
+)
+
+// askAccounts asks eth_accounts once.  ok is false when the answer is not a list of addresses.
+func askAccounts(in *proc.Instance, n int) (got []string, raw string, ok bool, perr error) {
+	in.Backend.Install(&proc.Script{Default: proc.ResultReply(`"verif-unjudged"`), NonceDefault: proc.ResultReply(`"0x0"`), NonceOther: proc.ResultReply(`"` + nonceOther + `"`)})
+	res, perr := in.Signer.Post([]byte(fmt.Sprintf(`{"jsonrpc":"2.0","id":"verif-settle-%d","method":"eth_accounts","params":[]}`, n)), 60*time.Second)
+	in.Backend.Finish()
+	if perr != nil {
+		return nil, "", false, perr
+	}
+	v, err := jsonrpc.Parse(res.Body)
+	if err != nil {
+		return nil, short(res.Body), false, nil
+	}
+	r, err := jsonrpc.CheckResponse(v)
+	if err != nil || r.IsError {
+		return nil, short(res.Body), false, nil
+	}
+	arr, isArr := r.Result.([]interface{})
+	if !isArr {
+		return nil, short(res.Body), false, nil
+	}
+	for _, e := range arr {
+		s, isStr := e.(string)
+		if !isStr || !strings.HasPrefix(s, "0x") || len(s) != 42 {
+			return nil, short(res.Body), false, nil
+		}
+		got = append(got, strings.ToLower(s[2:]))
+	}
+	sort.Strings(got)
+	return got, jsonrpc.Render(r.Result), true, nil
+}
+
+// probeTx is a one-member exchange asking for a signature from addr (nonce supplied, so no
+// look-up traffic), with its own correlation token.
+func probeTx(chain Chain, addr string, attempt int) ExchangeCase {
+	return ExchangeCase{Chain: chain, Salt: 0xfff00000 | uint32(attempt&0xfffff), Members: []Member{{
+		Kind: "sendtx", ID: json.RawMessage(fmt.Sprintf(`"verif-probe-%d"`, attempt)),
+		Tx:    &Tx{From: json.RawMessage(`"0x` + addr + `"`), Nonce: json.RawMessage(fmt.Sprintf(`"0x%x"`, attempt)), Gas: json.RawMessage(`"0x5208"`), GasPrice: json.RawMessage(`"0x1"`), DataToken: true, DataLen: 4, DataSeed: uint32(attempt)},
+		Reply: proc.ResultReply(fmt.Sprintf(`"0x%064x"`, attempt)),
+	}}}
+}
+
+// settle waits - polling, within settleBound - until the running process has taken in what
+// the harness added to its wallet directory: eth_accounts must list exactly the addresses of
+// w (the content after the change), and eth_sendTransaction from every added signing account
+// must be signed by that account.  The verdict does not depend on which of the two the process
+// picks up first, nor on how long the listener takes within the bound.
+func settle(in *proc.Instance, chain *big.Int, cfg Chain, w walletView, added []WalletAdd, what string) (vs []evid.Violation, usable bool) {
+	want := w.listed()
+	wantSet := map[string]bool{}
+	for _, a := range want {
+		wantSet[a] = true
+	}
+	var pending []proc.WalletKey // added signing accounts that have not signed yet
+	for _, a := range added {
+		if a.Kind == "key" {
+			k := proc.ExtraKey(a.N)
+			dup := false
+			for _, p := range pending {
+				dup = dup || p.Address == k.Address
+			}
+			if !dup {
+				pending = append(pending, k)
+			}
+		}
+	}
+	died := func(during string) ([]evid.Violation, bool) {
+		vs = append(vs, evid.V("process-survives", "the ffsigner process died %s after the wallet directory gained %s: %s", during, what, in.Signer.ExitInfo(2500)))
+		pool.NoteCrash()
+		pool.Drop(in)
+		return vs, false
+	}
+	start := time.Now()
+	var signedAt, listedAt time.Time
+	lastList, lastRefusal := "", map[string]string{}
+	listedOK := false
+	for attempt := 1; ; attempt++ {
+		// (1) who can sign by now?
+		still := pending[:0:0]
+		for _, k := range pending {
+			ex := probeTx(cfg, k.AddrHex, attempt)
+			plans, run, pvs, ok := performExchange(in, w, ex)
+			if !ok {
+				return append(vs, pvs...), false
+			}
+			if run == nil {
+				return append(vs, pvs...), true
+			}
+			reached := false
+			for _, cl := range run.calls {
+				reached = reached || cl.Token == ex.token(0)
+			}
+			if !reached {
+				if v, err := jsonrpc.Parse(run.body); err == nil {
+					if r, err := jsonrpc.CheckResponse(v); err == nil && r.IsError {
+						// refused: the process does not know the key (yet)
+						lastRefusal[k.AddrHex] = fmt.Sprintf("error{code:%s,message:%q}", r.Code, r.Message)
+						still = append(still, k)
+						continue
+					}
+				}
+			}
+			// something was submitted or answered: judge it like any other exchange
+			jv := append(judgeCalls(ex, plans, run.calls, chain, w), judgeResponse(ex, plans, w, run.body)...)
+			for i := range jv {
+				jv[i].Detail = fmt.Sprintf("after the wallet directory gained %s: %s", what, jv[i].Detail)
+			}
+			vs = append(vs, jv...)
+			if signedAt.IsZero() {
+				signedAt = time.Now()
+			}
+		}
+		pending = still
+		// (2) what does eth_accounts say - asked after the signing requests above were answered
+		got, raw, ok, perr := askAccounts(in, attempt)
+		if !in.Signer.Alive() || (perr != nil && in.Signer.WaitExit(750*time.Millisecond)) {
+			return died("on eth_accounts")
+		}
+		if perr != nil {
+			pool.Drop(in)
+			return append(vs, evid.V("response", "no complete HTTP response to eth_accounts within 60 s: %v", perr)), false
+		}
+		lastList = raw
+		if !ok {
+			return append(vs, evid.V("accounts", "after the wallet directory gained %s: eth_accounts answered %s", what, raw)), true
+		}
+		for _, a := range got {
+			if !wantSet[a] {
+				// no waiting makes this right: the address never was in the wallet
+				return append(vs, evid.V("accounts", "after the wallet directory gained %s: eth_accounts = %s lists 0x%s, the wallet holds %v", what, raw, a, want)), true
+			}
+		}
+		listedOK = strings.Join(got, ",") == strings.Join(want, ",")
+		if listedOK && listedAt.IsZero() {
+			listedAt = time.Now()
+		}
+		if listedOK && len(pending) == 0 {
+			if rec != nil {
+				switch d := time.Since(start); {
+				case d < 100*time.Millisecond:
+					rec.Class("session:wallet-change-taken-in<100ms")
+				case d < time.Second:
+					rec.Class("session:wallet-change-taken-in<1s")
+				default:
+					rec.Class("session:wallet-change-taken-in>=1s")
+				}
+			}
+			return vs, true
+		}
+		if len(vs) > 0 {
+			return vs, true // a wrong signature / answer was seen: no point in waiting
+		}
+		now := time.Now()
+		if now.Sub(start) > settleBound ||
+			(!listedOK && len(pending) == 0 && !signedAt.IsZero() && now.Sub(signedAt) > settleGrace) ||
+			(listedOK && len(pending) > 0 && now.Sub(listedAt) > settleGrace) {
+			break
+		}
+		switch {
+		case attempt < 10:
+			time.Sleep(10 * time.Millisecond)
+		case attempt < 40:
+			time.Sleep(50 * time.Millisecond)
+		default:
+			time.Sleep(250 * time.Millisecond)
+		}
+	}
+	waited := time.Since(start).Round(100 * time.Millisecond)
+	if !listedOK {
+		signing := "no signing account was added"
+		if !signedAt.IsZero() {
+			signing = fmt.Sprintf("the process has been signing with the new key(s) for %s", time.Since(signedAt).Round(100*time.Millisecond))
+		}
+		vs = append(vs, evid.V("accounts-follow-wallet", "%s after the wallet directory gained %s eth_accounts still answers %s; the wallet holds %v (%s)", waited, what, lastList, want, signing))
+	}
+	for _, k := range pending {
+		vs = append(vs, evid.V("new-key-signs", "%s after the wallet directory gained %s (eth_accounts lists the wallet's addresses: %v) eth_sendTransaction from 0x%s is still refused with %s", waited, what, listedOK, k.AddrHex, lastRefusal[k.AddrHex]))
+	}
+	return vs, true
 }
 
 func judgeSession(sc SessionCase) (vs []evid.Violation) {
@@ -673,19 +1028,30 @@ func judgeSession(sc SessionCase) (vs []evid.Violation) {
 	if pool == nil {
 		return []evid.Violation{evid.V("harness", "process pool not initialised")}
 	}
+	for si, st := range sc.Steps {
+		if len(st.Wallet) > 0 && !sc.Listener {
+			return []evid.Violation{evid.V("harness", "step %d changes the wallet directory but the session's process does not listen to it", si)}
+		}
+		if _, err := sc.viewAt(proc.Keys(3), si); err != nil {
+			return []evid.Violation{evid.V("harness", "step %d: %v", si, err)}
+		}
+	}
 	var in *proc.Instance
 	if sc.Chain.Configured != nil {
 		v := chain.Int64()
-		in, err = pool.Fresh(&v, nil)
+		in, err = pool.FreshListener(&v, nil, sc.Listener)
 	} else {
-		in, err = pool.Fresh(nil, json.RawMessage(sc.Chain.NetVersion))
+		in, err = pool.FreshListener(nil, json.RawMessage(sc.Chain.NetVersion), sc.Listener)
 	}
 	if err != nil {
 		if errors.Is(err, proc.ErrBinary) {
 			fmt.Fprintf(os.Stderr, "INFRASTRUCTURE: %v\n", err)
 			os.Exit(2)
 		}
-		return []evid.Violation{evid.V("process-starts", "the ffsigner process for chain config %+v does not come up: %v", sc.Chain, err)}
+		if iv := infraStart(err); iv != nil {
+			return []evid.Violation{*iv}
+		}
+		return []evid.Violation{evid.V("process-starts", "the ffsigner process for chain config %+v (file-system listener: %v) does not come up: %v", sc.Chain, sc.Listener, err)}
 	}
 	live := true
 	defer func() {
@@ -699,6 +1065,28 @@ func judgeSession(sc SessionCase) (vs []evid.Violation) {
 		}
 		if !sameChain(st.Ex.Chain, sc.Chain) {
 			return append(vs, evid.V("harness", "exchange %d names another chain configuration than the session", si))
+		}
+		w, _ := sc.viewAt(in.Keys, si)
+		if len(st.Wallet) > 0 {
+			var names []string
+			for _, a := range st.Wallet {
+				if err := applyWalletAdd(in.WalletDir, a); err != nil {
+					return append(vs, evid.V("harness", "step %d: writing into the wallet directory: %v", si, err))
+				}
+				names = append(names, a.String())
+			}
+			v, usable := settle(in, chain, sc.Chain, w, st.Wallet, strings.Join(names, " and "))
+			for k := range v {
+				v[k].Detail = fmt.Sprintf("before exchange %d of the session: %s", si, v[k].Detail)
+			}
+			vs = append(vs, v...)
+			if !usable {
+				live = false
+				return vs
+			}
+			if len(v) > 0 {
+				return vs // the exchanges that follow would only repeat it
+			}
 		}
 		for _, b := range st.Before {
 			in.Backend.Install(&proc.Script{Default: proc.ResultReply(`"verif-unjudged"`), NonceDefault: proc.ResultReply(`"0x0"`), NonceOther: proc.ResultReply(`"` + nonceOther + `"`)})
@@ -714,7 +1102,7 @@ func judgeSession(sc SessionCase) (vs []evid.Violation) {
 				return vs
 			}
 		}
-		v, usable := runExchange(in, chain, st.Ex)
+		v, usable := runExchange(in, w, chain, st.Ex)
 		for k := range v {
 			v[k].Detail = fmt.Sprintf("exchange %d of the session: %s", si, v[k].Detail)
 		}
@@ -730,7 +1118,22 @@ func judgeSession(sc SessionCase) (vs []evid.Violation) {
 	return vs
 }
 
-func judgeCalls(c ExchangeCase, plans []plan, calls []proc.Call, chain *big.Int) (vs []evid.Violation) {
+// infraStart recognises start-up failures that cannot be the fault of the code under test:
+// every retry lost the race for a TCP port, or the kernel has no inotify instance left for
+// the wallet's file-system listener.  Such a case is not judged.
+func infraStart(err error) *evid.Violation {
+	if errors.Is(err, proc.ErrListenerLimit) {
+		v := evid.Infra("no inotify instance could be had for the ffsigner process's file-system listener: %v", err)
+		return &v
+	}
+	if strings.Contains(err.Error(), "address already in use") || strings.Contains(err.Error(), "no free loopback port") {
+		v := evid.Infra("no TCP port could be won for the ffsigner process: %v", err)
+		return &v
+	}
+	return nil
+}
+
+func judgeCalls(c ExchangeCase, plans []plan, calls []proc.Call, chain *big.Int, w walletView) (vs []evid.Violation) {
 	byToken := map[string][]proc.Call{}
 	for _, cl := range calls {
 		if cl.Malformed != "" {
@@ -788,7 +1191,7 @@ func judgeCalls(c ExchangeCase, plans []plan, calls []proc.Call, chain *big.Int)
 			if !p.submit {
 				if len(got) != 0 {
 					why := map[fromClass]string{fromAbsent: "from is absent", fromMalformed: "from is malformed", fromUnknown: "from is not in the wallet", fromKnown: "the nonce lookup failed"}[p.class]
-					if d := decoyOf(p.from); p.class == fromUnusable && d != nil {
+					if d := w.decoyOf(p.from); p.class == fromUnusable && d != nil {
 						why = fmt.Sprintf("the wallet's file for from (0x%s) cannot sign for it (%s)", d.AddrHex, d.Kind)
 					}
 					vs = append(vs, evid.V("nothing-submitted", "member %d: %s, yet %d call(s) (%s) reached the backend%s", i, why, len(got), got[0].Method, whoSigned(got[0], chain)))
@@ -888,7 +1291,7 @@ func judgeSigned(c ExchangeCase, i int, p plan, cl proc.Call, chain *big.Int) (v
 	return vs
 }
 
-func judgeResponse(c ExchangeCase, plans []plan, keys []proc.WalletKey, body []byte) (vs []evid.Violation) {
+func judgeResponse(c ExchangeCase, plans []plan, w walletView, body []byte) (vs []evid.Violation) {
 	v, err := jsonrpc.Parse(body)
 	if err != nil {
 		return append(vs, evid.V("response-json", "response body is not one JSON value (%v): %q", err, short(body)))
@@ -949,15 +1352,8 @@ func judgeResponse(c ExchangeCase, plans []plan, keys []proc.WalletKey, body []b
 				}
 				got = append(got, strings.ToLower(s[2:]))
 			}
-			var want []string
-			for _, k := range keys {
-				want = append(want, k.AddrHex)
-			}
-			for _, d := range decoys { // a file is named for them: they are part of the wallet's address set
-				want = append(want, d.AddrHex)
-			}
+			want := w.listed()
 			sort.Strings(got)
-			sort.Strings(want)
 			if bad || strings.Join(got, ",") != strings.Join(want, ",") {
 				vs = append(vs, evid.V("accounts", "position %d: eth_accounts = %s, the wallet holds %v", i, jsonrpc.Render(r.Result), want))
 			}
@@ -978,7 +1374,7 @@ func judgeResponse(c ExchangeCase, plans []plan, keys []proc.WalletKey, body []b
 				if nr := c.nonceReply(p.from); len(m.Tx.Nonce) == 0 && nr.Kind == "rpcerror" && nr.Message == "" {
 					needMessage = false
 				}
-				wantErr("eth_sendTransaction from an address whose wallet file cannot sign for it (" + decoyOf(p.from).Kind + ")")
+				wantErr("eth_sendTransaction from an address whose wallet file cannot sign for it (" + w.decoyOf(p.from).Kind + ")")
 			default:
 				// a backend error object whose own message is empty may be relayed as it is
 				if nr := c.nonceReply(p.from); nr.Kind == "rpcerror" && nr.Message == "" {
@@ -1259,7 +1655,8 @@ func spellAddr(rt *rapid.T, label string, addr [20]byte) json.RawMessage {
 // genTx draws a transaction object.  cast (may be nil) is a short list of `from` values
 // of the history the transaction belongs to: most members of a history reuse them, so
 // that the same `from` is asked for again and again (F1).
-func genTx(rt *rapid.T, label string, keys []proc.WalletKey, maxData int, cast []json.RawMessage) (*Tx, []string) {
+func genTx(rt *rapid.T, label string, w walletView, maxData int, cast []json.RawMessage) (*Tx, []string) {
+	keys, decoys := w.keys, w.decoys
 	tx := &Tx{}
 	var cl []string
 	k := rapid.IntRange(0, 19).Draw(rt, label+".from")
@@ -1352,7 +1749,7 @@ func genTx(rt *rapid.T, label string, keys []proc.WalletKey, maxData int, cast [
 
 // genMember draws one request with its backend reply.  Nothing in it depends on the
 // member's position, so that rapid can shrink a failing batch by deleting members.
-func genMember(rt *rapid.T, keys []proc.WalletKey, maxData int, fifo bool, cast []json.RawMessage) Member {
+func genMember(rt *rapid.T, w walletView, maxData int, fifo bool, cast []json.RawMessage) Member {
 	label := "m"
 	m := Member{}
 	if !fifo {
@@ -1390,7 +1787,7 @@ func genMember(rt *rapid.T, keys []proc.WalletKey, maxData int, fifo bool, cast 
 		}
 	case k < 9:
 		m.Kind = "sendtx"
-		m.Tx, _ = genTx(rt, label+".tx", keys, maxData, cast)
+		m.Tx, _ = genTx(rt, label+".tx", w, maxData, cast)
 	default:
 		m.Kind = "accounts"
 		if rapid.Bool().Draw(rt, label+".noparams") {
@@ -1407,7 +1804,7 @@ func genMember(rt *rapid.T, keys []proc.WalletKey, maxData int, fifo bool, cast 
 	return m
 }
 
-func genExchange(rt *rapid.T, keys []proc.WalletKey, thorough bool) ExchangeCase {
+func genExchange(rt *rapid.T, w walletView, thorough bool) ExchangeCase {
 	c := ExchangeCase{Chain: rapid.SampledFrom(chainMenu).Draw(rt, "chain"), Salt: rapid.Uint32().Draw(rt, "salt")}
 	lo, hi := 1, 1
 	switch k := rapid.IntRange(0, 19).Draw(rt, "shape"); {
@@ -1421,19 +1818,50 @@ func genExchange(rt *rapid.T, keys []proc.WalletKey, thorough bool) ExchangeCase
 	default:
 		c.Batch, lo, hi = true, 21, 64
 	}
-	fillExchange(rt, &c, keys, lo, hi, nil)
+	fillExchange(rt, &c, w, lo, hi, nil)
+	return c
+}
+
+// genStorm draws a batch of 24..48 members nearly all of which are signing requests for the
+// wallet's own accounts with 2..16 KiB of data each: the proxy works on the members of a batch
+// concurrently, so many signatures (hashing included) are under way at the same moment, for the
+// same and for different accounts.  Whatever the signing path shares between requests - a
+// hasher, a buffer, a cached signer - is then used from several goroutines at once (F3).  The
+// case is an ordinary exchange and is judged by the same oracle: every payload that reaches
+// the backend must recover to its own from, with its own fields.
+func genStorm(rt *rapid.T, w walletView) ExchangeCase {
+	c := ExchangeCase{Chain: rapid.SampledFrom(chainMenu).Draw(rt, "chain"), Salt: rapid.Uint32().Draw(rt, "salt"), Batch: true}
+	fifo := rapid.Bool().Draw(rt, "fifo")
+	c.Members = rapid.SliceOfN(rapid.Custom(func(rt *rapid.T) Member {
+		if rapid.IntRange(0, 9).Draw(rt, "other") == 9 {
+			return genMember(rt, w, 2000, fifo, nil)
+		}
+		from := spellAddr(rt, "from", w.keys[rapid.IntRange(0, len(w.keys)-1).Draw(rt, "key")].Address)
+		m := genSendTxFrom(rt, "storm", w, from)
+		if !m.Tx.DataAbsent {
+			m.Tx.DataLen = rapid.IntRange(2048, 16384).Draw(rt, "datalen")
+		}
+		if len(m.Tx.Nonce) == 0 && rapid.IntRange(0, 3).Draw(rt, "givenonce") > 0 {
+			m.Tx.Nonce = numLit(rt, "nonce", gen.Uint(rt, "noncev", 64)) // no look-up before the signature
+		}
+		if !fifo {
+			m.Rank = rapid.IntRange(0, 63).Draw(rt, "rank")
+		}
+		return m
+	}), 24, 48).Draw(rt, "members")
+	fillNonces(rt, &c, w)
 	return c
 }
 
 // fillExchange draws the members and the nonce script of an exchange whose chain, salt
-// and shape are set.
-func fillExchange(rt *rapid.T, c *ExchangeCase, keys []proc.WalletKey, lo, hi int, cast []json.RawMessage) {
+// and shape are set; w is the wallet content the exchange will meet.
+func fillExchange(rt *rapid.T, c *ExchangeCase, w walletView, lo, hi int, cast []json.RawMessage) {
 	maxData := 70000
 	if hi > 20 || cast != nil {
 		maxData = 2000
 	}
 	fifo := rapid.IntRange(0, 3).Draw(rt, "fifo") == 0
-	c.Members = rapid.SliceOfN(rapid.Custom(func(rt *rapid.T) Member { return genMember(rt, keys, maxData, fifo, cast) }), lo, hi).Draw(rt, "members")
+	c.Members = rapid.SliceOfN(rapid.Custom(func(rt *rapid.T) Member { return genMember(rt, w, maxData, fifo, cast) }), lo, hi).Draw(rt, "members")
 	if c.Batch && len(c.Members) > 1 {
 		// now and then two members share an id (alignment must then come from the position alone)
 		for i := 1; i < len(c.Members); i++ {
@@ -1442,11 +1870,17 @@ func fillExchange(rt *rapid.T, c *ExchangeCase, keys []proc.WalletKey, lo, hi in
 			}
 		}
 	}
+	fillNonces(rt, c, w)
+}
+
+// fillNonces draws the nonce script for the members of c as they are now.
+func fillNonces(rt *rapid.T, c *ExchangeCase, w walletView) {
+	c.Nonces = nil
 	used := map[string]bool{}
 	for _, m := range c.Members {
 		if m.Kind == "sendtx" {
 			// the pending nonce is looked up for every well-formed from that comes without a nonce
-			if cls, addr := classifyFrom(m.Tx.From, keys); (cls == fromKnown || cls == fromUnusable) && len(m.Tx.Nonce) == 0 {
+			if cls, addr := classifyFrom(m.Tx.From, w); (cls == fromKnown || cls == fromUnusable) && len(m.Tx.Nonce) == 0 {
 				used[hex.EncodeToString(addr[:])] = true
 			}
 		}
@@ -1479,6 +1913,10 @@ func noiseMenu(keys []proc.WalletKey) []string {
 
 // Step is one exchange of a session, preceded by bodies whose answers are not judged.
 type Step struct {
+	// Wallet: files put into the wallet directory before anything else of the step (sessions
+	// with Listener only).  The harness then waits until the process has taken them in
+	// (settle) and judges this and all later exchanges against the enlarged wallet.
+	Wallet []WalletAdd  `json:"wallet,omitempty"`
 	Before []string     `json:"before,omitempty"`
 	Ex     ExchangeCase `json:"ex"`
 }
@@ -1489,14 +1927,53 @@ type Step struct {
 // on what it was asked before (a cache filled by an earlier refusal, a pooled request
 // object, a lock left behind by a request that could not be processed).
 type SessionCase struct {
-	Chain Chain  `json:"chain"`
-	Steps []Step `json:"steps"`
+	Chain Chain `json:"chain"`
+	// Listener: the process runs with the wallet's file-system listener switched on, so the
+	// wallet is the CURRENT content of its directory, which the steps enlarge.
+	Listener bool   `json:"listener,omitempty"`
+	Steps    []Step `json:"steps"`
+}
+
+func genWalletAdd(rt *rapid.T, label string) WalletAdd {
+	a := WalletAdd{N: rapid.IntRange(0, 9).Draw(rt, label+".n")}
+	switch k := rapid.IntRange(0, 9).Draw(rt, label+".kind"); {
+	case k < 6:
+		a.Kind = "key"
+	case k < 9:
+		a.Kind = "decoy:" + rapid.SampledFrom(proc.DecoyKinds).Draw(rt, label+".decoy")
+	default:
+		a.Kind = "ignored"
+	}
+	a.InPlace = rapid.Bool().Draw(rt, label+".inplace")
+	a.KeyFirst = rapid.Bool().Draw(rt, label+".keyfirst")
+	return a
+}
+
+// genSendTxFrom draws a signing request that names from.
+func genSendTxFrom(rt *rapid.T, label string, w walletView, from json.RawMessage) Member {
+	id, _ := genID(rt, label+".id", rapid.IntRange(0, 99).Draw(rt, label+".idsuffix"))
+	m := Member{Kind: "sendtx", ID: json.RawMessage(id)}
+	m.Tx, _ = genTx(rt, label+".tx", w, 2000, []json.RawMessage{from})
+	m.Tx.From = from
+	m.Reply, _ = genReply(rt, label+".reply", fmt.Sprintf("tag-%d", rapid.IntRange(0, 1<<30).Draw(rt, label+".replytag")), true)
+	return m
 }
 
 func genSession(rt *rapid.T, keys []proc.WalletKey) SessionCase {
 	sc := SessionCase{Chain: rapid.SampledFrom(chainMenu).Draw(rt, "chain")}
+	n := rapid.IntRange(2, 6).Draw(rt, "steps")
+	// two sessions in five run against a process that LISTENS to its wallet directory, and
+	// enlarge the wallet while it runs: one to three additions, none before the first exchange
+	adds := make([][]WalletAdd, n)
+	if sc.Listener = rapid.IntRange(0, 4).Draw(rt, "listener") < 2; sc.Listener {
+		for j, na := 0, rapid.IntRange(1, 3).Draw(rt, "adds"); j < na; j++ {
+			at := rapid.IntRange(1, n-1).Draw(rt, fmt.Sprintf("add%d.step", j))
+			adds[at] = append(adds[at], genWalletAdd(rt, fmt.Sprintf("add%d", j)))
+		}
+	}
 	// the cast: one to three `from` values that keep coming back, drawn from everything a
-	// from can be - signing accounts, wallet entries that cannot sign, strangers
+	// from can be - signing accounts, wallet entries that cannot sign, strangers - and the
+	// addresses the session is going to add: they are strangers until their file is there
 	var cast []json.RawMessage
 	for i, n := 0, rapid.IntRange(1, 3).Draw(rt, "castSize"); i < n; i++ {
 		label := fmt.Sprintf("cast%d", i)
@@ -1509,10 +1986,32 @@ func genSession(rt *rapid.T, keys []proc.WalletKey) SessionCase {
 			cast = append(cast, json.RawMessage(`"0x`+hex.EncodeToString(gen.Bytes(rt, label+".unknown", 20))+`"`))
 		}
 	}
+	for si := range adds {
+		for j, a := range adds[si] {
+			label := fmt.Sprintf("castadd%d.%d", si, j)
+			if grown, err := baseView(keys).with(a); err == nil && rapid.IntRange(0, 4).Draw(rt, label+".in") > 0 {
+				switch {
+				case len(grown.keys) > len(keys):
+					cast = append(cast, spellAddr(rt, label, grown.keys[len(keys)].Address))
+				case len(grown.decoys) > len(decoys):
+					cast = append(cast, spellAddr(rt, label, grown.decoys[len(decoys)].Address))
+				}
+			}
+		}
+	}
 	noise := noiseMenu(keys)
-	n := rapid.IntRange(2, 6).Draw(rt, "steps")
+	accountsMember := func(label string) Member {
+		id, _ := genID(rt, label+".id", rapid.IntRange(0, 99).Draw(rt, label+".idsuffix"))
+		m := Member{Kind: "accounts", ID: json.RawMessage(id), ParamsForm: "empty"}
+		if rapid.Bool().Draw(rt, label+".noparams") {
+			m.ParamsForm = "absent"
+		}
+		return m
+	}
 	for i := 0; i < n; i++ {
-		st := Step{Ex: ExchangeCase{Chain: sc.Chain, Salt: rapid.Uint32().Draw(rt, "salt")}}
+		st := Step{Wallet: adds[i], Ex: ExchangeCase{Chain: sc.Chain, Salt: rapid.Uint32().Draw(rt, "salt")}}
+		sc.Steps = append(sc.Steps, st)
+		w, _ := sc.viewAt(keys, i)
 		if rapid.IntRange(0, 2).Draw(rt, "noisy") == 0 {
 			st.Before = rapid.SliceOfN(rapid.SampledFrom(noise), 1, 2).Draw(rt, "before")
 		}
@@ -1520,48 +2019,151 @@ func genSession(rt *rapid.T, keys []proc.WalletKey) SessionCase {
 		if rapid.IntRange(0, 2).Draw(rt, "batch") == 0 {
 			st.Ex.Batch, lo, hi = true, 1, 4
 		}
-		fillExchange(rt, &st.Ex, keys, lo, hi, cast)
-		sc.Steps = append(sc.Steps, st)
+		fillExchange(rt, &st.Ex, w, lo, hi, cast)
+		if sc.Listener && (i == 0 || len(st.Wallet) > 0) {
+			// eth_accounts is asked before the first change and after every change; after a
+			// new signing account arrived it is, three times in four, asked to sign at once
+			var extra []Member
+			hasAccounts := false
+			for _, m := range st.Ex.Members {
+				hasAccounts = hasAccounts || m.Kind == "accounts"
+			}
+			if !hasAccounts {
+				extra = append(extra, accountsMember(fmt.Sprintf("acc%d", i)))
+			}
+			for j, a := range st.Wallet {
+				label := fmt.Sprintf("newkey%d.%d", i, j)
+				if a.Kind != "key" || rapid.IntRange(0, 3).Draw(rt, label+".use") == 0 {
+					continue
+				}
+				from := spellAddr(rt, label, proc.ExtraKey(a.N).Address)
+				extra = append(extra, genSendTxFrom(rt, label, w, from))
+			}
+			if i == 0 {
+				// and half of the accounts that will arrive later are asked to sign now, as strangers
+				for sj := range adds {
+					for j, a := range adds[sj] {
+						label := fmt.Sprintf("early%d.%d", sj, j)
+						if a.Kind != "key" || rapid.Bool().Draw(rt, label+".skip") {
+							continue
+						}
+						from := spellAddr(rt, label, proc.ExtraKey(a.N).Address)
+						extra = append(extra, genSendTxFrom(rt, label, w, from))
+					}
+				}
+			}
+			if len(extra) > 0 {
+				st.Ex.Batch = true
+				for _, m := range extra {
+					pos := rapid.IntRange(0, len(st.Ex.Members)).Draw(rt, "extrapos")
+					st.Ex.Members = append(st.Ex.Members[:pos], append([]Member{m}, st.Ex.Members[pos:]...)...)
+				}
+				fillNonces(rt, &st.Ex, w)
+			}
+		}
+		sc.Steps[i] = st
 	}
 	return sc
 }
 
 // sessionClasses labels a session and evaluates the non-trivial rule on it: some `from`
-// is asked for in at least two different exchanges.
+// is asked for in at least two different exchanges, an exchange follows an unjudged body,
+// or the wallet directory gains a file while the process runs.
 func sessionClasses(sc SessionCase, keys []proc.WalletKey) (bool, []string) {
 	cl := map[string]bool{}
 	seenIn := map[string]map[int]bool{}
-	noisy := false
+	noisy, grows := false, false
+	accountsAt := []int{}
+	firstAdd := -1
+	addedKeyAt := map[string]int{}
 	for si, st := range sc.Steps {
+		w, err := sc.viewAt(keys, si)
+		if err != nil {
+			return false, []string{"session:malformed"}
+		}
 		if len(st.Before) > 0 {
 			noisy = true
 		}
-		for _, x := range classesOf(st.Ex, keys) {
+		for _, a := range st.Wallet {
+			grows = true
+			if firstAdd < 0 {
+				firstAdd = si
+			}
+			cl["session:wallet-gains:"+a.Kind] = true
+			if a.InPlace {
+				cl["session:wallet-file-written-in-place"] = true
+			} else {
+				cl["session:wallet-file-renamed-into-place"] = true
+			}
+			if a.Kind == "key" {
+				if _, seen := addedKeyAt[proc.ExtraKey(a.N).AddrHex]; !seen {
+					addedKeyAt[proc.ExtraKey(a.N).AddrHex] = si
+				}
+				if a.KeyFirst {
+					cl["session:wallet-gains:key-file-before-password-file"] = true
+				} else {
+					cl["session:wallet-gains:password-file-before-key-file"] = true
+				}
+			}
+		}
+		for _, x := range classesOf(st.Ex, w) {
 			if strings.HasPrefix(x, "sendtx:from-") || strings.HasPrefix(x, "member:") {
 				cl[x] = true
 			}
 		}
 		for _, m := range st.Ex.Members {
+			if m.Kind == "accounts" {
+				accountsAt = append(accountsAt, si)
+			}
 			if m.Kind != "sendtx" {
 				continue
 			}
-			cls, addr := classifyFrom(m.Tx.From, keys)
+			cls, addr := classifyFrom(m.Tx.From, w)
 			if cls != fromKnown && cls != fromUnusable && cls != fromUnknown {
 				continue
 			}
 			key := hex.EncodeToString(addr[:])
+			if at, ok := addedKeyAt[key]; ok && si >= at {
+				cl["session:signing-request-for-an-account-added-while-running"] = true
+			}
 			if seenIn[key] == nil {
 				seenIn[key] = map[int]bool{}
 			}
 			seenIn[key][si] = true
 			if len(seenIn[key]) >= 2 {
 				name := map[fromClass]string{fromKnown: "signing-account", fromUnknown: "unknown-address", fromUnusable: "unusable-wallet-entry"}[cls]
-				if d := decoyOf(addr); d != nil {
+				if d := w.decoyOf(addr); d != nil {
 					name += "(" + d.Kind + ")"
 				}
 				cl["session:same-from-in-several-exchanges:"+name] = true
 			}
 		}
+	}
+	// an address that was refused as a stranger and is asked again after its key file arrived
+	for key, at := range addedKeyAt {
+		before, after := false, false
+		for si := range seenIn[key] {
+			before = before || si < at
+			after = after || si >= at
+		}
+		if before && after {
+			cl["session:from-asked-before-and-after-its-key-file-arrived"] = true
+		}
+	}
+	if firstAdd >= 0 {
+		before, after := false, false
+		for _, si := range accountsAt {
+			before = before || si < firstAdd
+			after = after || si >= firstAdd
+		}
+		if before && after {
+			cl["session:eth_accounts-before-and-after-the-wallet-changed"] = true
+		}
+	}
+	if sc.Listener {
+		cl["session:process-listens-to-wallet-directory"] = true
+	} else {
+		cl["session:fixed-wallet"] = true
 	}
 	if noisy {
 		cl["session:exchange-after-unjudged-body"] = true
@@ -1575,11 +2177,11 @@ func sessionClasses(sc SessionCase, keys []proc.WalletKey) (bool, []string) {
 		out = append(out, k)
 	}
 	sort.Strings(out)
-	return nt || noisy, out
+	return nt || noisy || grows, out
 }
 
 // classesOf labels a case for the evidence histogram (computed from the case, not from the draws).
-func classesOf(c ExchangeCase, keys []proc.WalletKey) []string {
+func classesOf(c ExchangeCase, w walletView) []string {
 	cl := map[string]bool{}
 	switch n := len(c.Members); {
 	case !c.Batch:
@@ -1639,9 +2241,9 @@ func classesOf(c ExchangeCase, keys []proc.WalletKey) []string {
 		case "sendtx":
 			cl["member:eth_sendTransaction"] = true
 			tx := m.Tx
-			cls, faddr := classifyFrom(tx.From, keys)
+			cls, faddr := classifyFrom(tx.From, w)
 			cl["sendtx:from-"+map[fromClass]string{fromAbsent: "absent", fromMalformed: "malformed", fromUnknown: "unknown", fromKnown: "known", fromUnusable: "unusable"}[cls]] = true
-			if d := decoyOf(faddr); cls == fromUnusable && d != nil {
+			if d := w.decoyOf(faddr); cls == fromUnusable && d != nil {
 				cl["sendtx:from-unusable:"+d.Kind] = true
 			}
 			fromSeen[hex.EncodeToString(faddr[:])]++
@@ -1697,8 +2299,8 @@ func classesOf(c ExchangeCase, keys []proc.WalletKey) []string {
 }
 
 // nonTrivial evaluates the stated rule on a case, and adds outcome classes.
-func nonTrivial(c ExchangeCase, keys []proc.WalletKey) (bool, []string) {
-	plans, err := c.plans(keys)
+func nonTrivial(c ExchangeCase, w walletView) (bool, []string) {
+	plans, err := c.plans(w)
 	if err != nil {
 		return false, nil
 	}
@@ -1778,8 +2380,11 @@ func TestCheck(t *testing.T) {
 	setup(t)
 	rec.Assume("real ffsigner binary built from the tree under test; wallet of 3 keys in cheap-KDF Keystore-V3 files plus 5 entries that are listed (a file is named for the address) but must never sign: another wallet account's key file stored under the address's name, a foreign key under it, a file that is no key file, a wrong password file, no password file; scripted HTTP JSON-RPC backend inside the harness")
 	rec.Assume("histories: exchanges share long-lived processes (what an earlier case left behind must not matter), and the kind session runs 2..6 exchanges that keep naming the same from values against a process started for the case alone; every exchange is judged by the same history-free oracle; bodies posted between the exchanges of a session (unprocessable ones included) are not judged here")
+	rec.Assume("changing wallets: two sessions in five run against a process whose file-system listener is ON (fresh, short-lived processes only - one inotify instance each -, stopped before the next starts) and put 1..3 files into its wallet directory between exchanges: key file + password file of a new signing account, a file named for an address that cannot sign for it (the five decoy kinds), a file the naming rule does not match; renamed into place or written in place, key file or password file first, always complete before the next request is sent. After each change the harness polls (bound 30 s; the listener is asynchronous, so 'not yet' is no violation before the bound; once the process has signed with a new key eth_accounts has 5 s left, and once it lists the new addresses signing has 5 s left) until eth_accounts lists exactly start-up content + additions and eth_sendTransaction from every new signing account is signed by it; an address that never was in the wallet is a violation at once. eth_accounts is asked before the first change and after every change; the exchanges that follow are judged by the same oracle against the enlarged wallet, and addresses about to be added are asked for beforehand as well (strangers: refused, nothing submitted)")
+	rec.Assume("not asserted for changing wallets: removal or replacement of key files, directories named like key files, the order of the eth_accounts list, how fast the listener is (only the 30 s liveness bound)")
 	rec.Assume("oracle: ref/rlpref strict decode + ref/secp recovery over the EIP-155 / EIP-1559 preimage; ref/jsonrpc response validation and number-preserving comparison")
 	rec.Assume("not asserted: HTTP status codes; backend bodies that are not JSON-RPC objects with HTTP 200 (bare null etc.); backend error objects with code 0; the count and block tag of auxiliary eth_getTransactionCount calls (only the signed nonce is judged); personal_accounts")
+	rec.Assume("concurrent signing: besides the mixed batches, 30 (thorough: 200 per shard) batches of 24..48 members are nearly all signing requests for the wallet's accounts with 2..16 KiB of data, so that many signatures are computed at the same moment; which interleavings occur is up to the scheduler (sampled, not enumerated)")
 	rec.Assume("completion orders of concurrent batch members are sampled through the backend's release barrier (generated permutation), not enumerated; a barrier time-out changes no verdict")
 	kEx := evid.NewKind(rec, "exchange", judgeExchange)
 	kSess := evid.NewKind(rec, "session", judgeSession)
@@ -1791,9 +2396,15 @@ func TestCheck(t *testing.T) {
 		kSess.Check(rt, sc, nt, cl...)
 	})
 	rec.Rapid(t, "exchange", rec.N(600, 3000), func(rt *rapid.T) {
-		c := genExchange(rt, keys, rec.Thorough())
-		nt, more := nonTrivial(c, keys)
-		kEx.Check(rt, c, nt, append(classesOf(c, keys), more...)...)
+		c := genExchange(rt, baseView(keys), rec.Thorough())
+		nt, more := nonTrivial(c, baseView(keys))
+		kEx.Check(rt, c, nt, append(classesOf(c, baseView(keys)), more...)...)
+	})
+	// many signatures under way at once (same judge, same kind)
+	rec.Rapid(t, "storm", rec.N(30, 200), func(rt *rapid.T) {
+		c := genStorm(rt, baseView(keys))
+		nt, more := nonTrivial(c, baseView(keys))
+		kEx.Check(rt, c, nt, append(append(classesOf(c, baseView(keys)), more...), "shape:signing-storm(24..48 members, 2..16 KiB each)")...)
 	})
 	if pool != nil {
 		rec.Extra("processes_started", pool.Stats.Started)
